@@ -3,6 +3,7 @@
   first in the sequence list, and it defines exactly the reachable objects.
 -/
 import Proofs.Lemmas.AoefC02Keys
+import Proofs.Lemmas.AoefC02Reach
 namespace SE.Proofs.C02
 open SE SE.Paths SE.Aoef
 
@@ -51,6 +52,36 @@ example : closed exDoc = true ∧ unique exDoc = true ∧ parentFirst exDoc = tr
 /-- the badge owner, the project tag and the parent sequence are all defined in the example -/
 example : "u-badge" ∈ defs exDoc .user ∧ "project\u0000only" ∈ tagDefKeys exDoc
     ∧ defs exDoc .sequence = ["sq-parent", "sq-child"] := by decide +kernel
+
+/-! ### the traversal is exactly the set of reachable objects -/
+
+theorem C02_trav_iff_reachable (c : Collection) (o : Obj) : o ∈ c.trav ↔ Reachable c o :=
+  ⟨mem_trav_reachable c o, reachable_mem_trav c o⟩
+
+/-- the objects defined are exactly the distinct reachable objects: nothing reachable is missing,
+    nothing unreachable is written (no well-formedness hypothesis is needed) -/
+theorem C02_exact (c : Collection) (dir : Option PPath) (d : Doc) (h : save c dir = .ok d) :
+    ∀ k, ∀ key, key ∈ (if k = .tag then tagDefKeys d else defs d k) ↔ key ∈ reachKeys c.trav k := by
+  obtain ⟨rs, hrs, spec⟩ := save_spec h
+  intro k key
+  by_cases hk : k = .tag
+  · subst hk
+    rw [if_pos rfl]
+    unfold tagDefKeys
+    rw [spec.tags, encTags_contents (tagTable c.trav) (fun k v => s!"{k}\u0000{v}")]
+    simp only [reachKeys, List.mem_map, mem_tagTable, mem_tagsOf]
+  · rw [if_neg hk, defs_eq_srcKeys hrs spec k]
+    exact srcKeys_mem hk
+
+example : ∃ d, save ex none = .ok d := ⟨_, ex_saved⟩
+
+/-- in terms of objects: a key is defined iff it is the key of a reachable object of that kind -/
+theorem C02_exact_reachable (c : Collection) (dir : Option PPath) (d : Doc) (h : save c dir = .ok d)
+    (u : Atom) : u ∈ defs d .user ↔ ∃ x : User, Reachable c (.user x) ∧ x.uuid = u := by
+  have := C02_exact c dir d h .user u
+  rw [if_neg (by decide)] at this
+  rw [this]
+  simp only [reachKeys, List.mem_map, mem_usersOf, C02_trav_iff_reachable]
 
 /-! ### the sequence list: parents first -/
 
